@@ -54,6 +54,7 @@ def generic_check(ctx, mod):
                           {"evaluations": 0}, ["harness did not build"])
         return
     cm.regen_tables(ctx.log)
+    cm.regen_sites(ctx.log)
     if hasattr(mod, "pre_build"):
         mod.pre_build(ctx)
     okm, outm = cm.coq_make(["theories/Check_%s.vo" % ctx.pid], ctx.log)
